@@ -43,11 +43,16 @@ func SortVersions(vs []Version) {
 	}
 	sort.Slice(vs, func(i, j int) bool {
 		vi, vj := vers[vs[i].VersionKey], vers[vs[j].VersionKey]
-		if vi == nil || vj == nil {
-			// Does this make any sense at all?
-			return vs[i].Version < vs[j].Version
+		if (vi != nil) != (vj != nil) {
+			// Versions that parse sort before those that do not.
+			return vi != nil
+		} else if vi != nil {
+			if c := vi.Compare(vj); c != 0 {
+				return c < 0
+			}
 		}
-		return vi.Compare(vj) < 0
+		// Otherwise order lexicographically.
+		return vs[i].Version < vs[j].Version
 	})
 }
 
@@ -190,6 +195,7 @@ func matchNPMRequirement(req VersionKey, vers []Version) []Version {
 // matchRequirement is a default implementation of MatchRequirement, appropriate
 // for many systems.
 func matchRequirement(req VersionKey, versions []Version) []Version {
+	SortVersions(versions)
 	constraint, err := req.System.Semver().ParseConstraint(req.Version)
 	if err != nil {
 		// Fall back to string matching.
